@@ -697,7 +697,20 @@ func defaultTimestampingValidator(r *lib.Run) {
 					r.Inconclusive("default timestamping validator: verifier construction failed: " + err.Error())
 					return
 				}
-				_, verr := v.Verify(ctx, desc, stamped, notation.VerifierVerifyOptions{ArtifactReference: "r.io/a@" + desc.Digest.String(), SignatureMediaType: format})
+				var verr error
+				panicked := func() (p bool) {
+					defer func() {
+						if pv := recover(); pv != nil {
+							p = true
+							r.Violation(map[string]string{"kind": "panic", "verifier": "default-timestamping-validator", "configured": how}, fmt.Sprintf("%s: verification panicked: %v", format, pv), nil)
+						}
+					}()
+					_, verr = v.Verify(ctx, desc, stamped, notation.VerifierVerifyOptions{ArtifactReference: "r.io/a@" + desc.Digest.String(), SignatureMediaType: format})
+					return false
+				}()
+				if panicked {
+					continue
+				}
 				r.Eval(fmt.Sprintf("default-timestamping-validator|%s|%v|%s", how, revoked, format))
 				wit := map[string]any{"revocation_configured_by": how, "tsa_revoked_in_its_crl": revoked, "format": format, "error": fmt.Sprint(verr)}
 				if !revoked {
